@@ -114,6 +114,249 @@ func c13ExpectedLog(evs []model.Event) []string {
 	return out
 }
 
+// c13PrimOf is filled by a registered primitive unfolder taking a T.
+type c13PrimOf[T any] struct {
+	V   T
+	Set bool
+	N   int
+}
+
+func c13PrimFn[T any]() interface{} {
+	return func(to *c13PrimOf[T], v T) error { to.V, to.Set, to.N = v, true, to.N+1; return nil }
+}
+
+type c13PrimCase struct {
+	name string
+	t    reflect.Type // c13PrimOf[T]
+	fn   interface{}
+}
+
+func c13PrimEntry[T any](name string) c13PrimCase {
+	return c13PrimCase{name, reflect.TypeOf(c13PrimOf[T]{}), c13PrimFn[T]()}
+}
+
+// c13PrimitiveCross: a registered primitive unfolder for every primitive argument type x every scalar event: the callback
+// receives exactly the stream's value whenever it fits the argument type.
+func c13PrimitiveCross(tier string) engine.Family {
+	cases := []c13PrimCase{c13PrimEntry[bool]("bool"), c13PrimEntry[string]("string"), c13PrimEntry[int]("int"), c13PrimEntry[int8]("int8"), c13PrimEntry[int16]("int16"),
+		c13PrimEntry[int32]("int32"), c13PrimEntry[int64]("int64"), c13PrimEntry[uint]("uint"), c13PrimEntry[uint8]("uint8"), c13PrimEntry[uint16]("uint16"), c13PrimEntry[uint32]("uint32"),
+		c13PrimEntry[uint64]("uint64"), c13PrimEntry[float32]("float32"), c13PrimEntry[float64]("float64")}
+	var fns []interface{}
+	for _, c := range cases {
+		fns = append(fns, c.fn)
+	}
+	opts := []gotype.UnfoldOption{gotype.Unfolders(fns...)}
+	nums := append(gen.IntEvents(), gen.FloatEvents()...)
+	scalars := append([]model.Event{model.Nil(), model.Bool(true), model.Bool(false), model.StrRef("s"), model.Str(""), model.Str("by value")}, nums...)
+	return engine.Family{Name: "custom-primitive-cross", Arity: []int{len(cases)}, Body: func(x *engine.Exec) {
+		c := cases[x.Choose(len(cases))]
+		ev := scalars[x.Choose(len(scalars))]
+		shape := x.Choose(4)
+		var target reflect.Value
+		var evs []model.Event
+		var cell func() reflect.Value
+		switch shape {
+		case 0:
+			target, evs = reflect.New(c.t), []model.Event{ev}
+			cell = func() reflect.Value { return target.Elem() }
+		case 1:
+			st := reflect.StructOf([]reflect.StructField{{Name: "Z", Type: reflect.TypeOf(0), Tag: `struct:"zzz"`}, {Name: "P", Type: c.t, Tag: `struct:"p"`}, {Name: "A", Type: reflect.TypeOf(""), Tag: `struct:"a"`}})
+			target = reflect.New(st)
+			evs = []model.Event{model.ObjStart(-1, 0), model.KeyRef("p"), ev, model.Key("a"), model.StrRef("after"), model.ObjEnd()}
+			cell = func() reflect.Value { return target.Elem().Field(1) }
+		case 2:
+			target = reflect.New(reflect.SliceOf(c.t))
+			evs = []model.Event{model.ArrStart(2, 0), ev, ev, model.ArrEnd()}
+			cell = func() reflect.Value {
+				if target.Elem().Len() != 2 {
+					return reflect.Value{}
+				}
+				return target.Elem().Index(1)
+			}
+		default:
+			target = reflect.New(reflect.MapOf(reflect.TypeOf(""), c.t))
+			evs = []model.Event{model.ObjStart(1, 0), model.KeyRef("k"), ev, model.ObjEnd()}
+			cell = func() reflect.Value {
+				v := target.Elem().MapIndex(reflect.ValueOf("k"))
+				return v
+			}
+		}
+		desc := fmt.Sprintf("func(*X, %s) <- shape %d %s", c.name, shape, model.EventsString(evs))
+		x.Case(desc, true)
+		x.Sample(func() interface{} {
+			return map[string]interface{}{"unfolder_argument": c.name, "events": model.EventsString(evs)}
+		})
+		// reference: does the stream's value fit the argument type, and which value is it
+		sv, _ := model.ValueOf([]model.Event{ev})
+		want := reflect.New(c.t.Field(0).Type).Elem()
+		specified, why := model.RefUnfold(sv, want)
+		res := unfoldCustom(x, target.Interface(), evs, opts)
+		wit := map[string]interface{}{"unfolder_argument": c.name, "events": model.EventsString(evs), "err": errStr(res.Err), "specified": specified, "unspecified_because": why, "result": trunc(model.Dump(target.Elem().Interface()), 200)}
+		class := "custom:primitive:" + c.name + "<-" + leafClass(ev)
+		if res.Bad() {
+			x.Violation("gotype.Unfolder(custom)", res.Symptom(), class, res.Panic+res.Where, wit)
+			return
+		}
+		if !specified {
+			x.Count("unspecified", 1)
+			return
+		}
+		if res.Err != nil {
+			x.Violation("gotype.Unfolder(custom)", "matching-target-refused", class, errStr(res.Err), wit)
+			return
+		}
+		x.Count("custom_compared", 1)
+		got := cell()
+		if !got.IsValid() || !got.Field(1).Bool() {
+			x.Violation("gotype.Unfolder(custom)", "wrong-value", class, "the registered primitive unfolder was not called", wit)
+			return
+		}
+		if ok, path := model.SameGo(want, got.Field(0)); !ok {
+			x.Violation("gotype.Unfolder(custom)", "wrong-value", class, "the registered primitive unfolder received a different value: "+path, wit)
+			return
+		}
+		if got.Field(2).Int() != 1 {
+			x.Violation("gotype.Unfolder(custom)", "wrong-value", class, fmt.Sprintf("the registered primitive unfolder was called %d times for one value", got.Field(2).Int()), wit)
+		}
+	}}
+}
+
+// c13ProcOf is filled by a registered processing unfolder whose temporary cell is a *T.
+type c13ProcOf[T any] struct {
+	Got   T
+	Calls int
+}
+
+func c13ProcFn[T any]() interface{} {
+	return func(to *c13ProcOf[T]) (interface{}, func(*c13ProcOf[T], interface{}) error) {
+		return new(T), func(to *c13ProcOf[T], c interface{}) error {
+			to.Got = *(c.(*T))
+			to.Calls++
+			return nil
+		}
+	}
+}
+
+func c13ProcEntry[T any](name string) c13PrimCase {
+	return c13PrimCase{name, reflect.TypeOf(c13ProcOf[T]{}), c13ProcFn[T]()}
+}
+
+type c13ProcNested struct {
+	K    string `struct:"k"`
+	Keep int    `struct:"keep"`
+}
+
+// c13ProcessingCross: processing unfolders (the library unfolds into a temporary cell, then hands the cell to the user's
+// function) for cells of many types x every scalar event kind, bare and nested; the cell must hold exactly the stream's
+// value when the user's function is called, which must happen exactly once per value. A cell type that cannot be
+// unfolded into (chan) must lead to errors, never a crash.
+func c13ProcessingCross(tier string) engine.Family {
+	cases := []c13PrimCase{c13ProcEntry[interface{}]("interface{}"), c13ProcEntry[string]("string"), c13ProcEntry[bool]("bool"), c13ProcEntry[float64]("float64"), c13ProcEntry[int8]("int8"),
+		c13ProcEntry[uint64]("uint64"), c13ProcEntry[[]interface{}]("[]interface{}"), c13ProcEntry[map[string]interface{}]("map[string]interface{}"), c13ProcEntry[map[string]int]("map[string]int"),
+		c13ProcEntry[[]string]("[]string"), c13ProcEntry[c13ProcNested]("struct"), c13ProcEntry[*c13ProcNested]("*struct"), c13ProcEntry[chan int]("chan int"), c13ProcEntry[[]float32]("[]float32")}
+	var fns []interface{}
+	for _, c := range cases {
+		fns = append(fns, c.fn)
+	}
+	opts := []gotype.UnfoldOption{gotype.Unfolders(fns...)}
+	leaves := []model.Event{model.SInt(model.KInt8, -1), model.Str("a"), model.StrRef("r"), model.Nil(), model.Bool(true), model.F64(0x3fe0000000000000),
+		model.UInt(model.KUint64, 1<<64-1), model.SInt(model.KInt, -70000), model.F32(0x3dcccccd), model.UInt(model.KByte, 200),
+		model.SInt(model.KInt16, 300), model.SInt(model.KInt32, -1<<31), model.SInt(model.KInt64, 1<<62), model.UInt(model.KUint8, 255), model.UInt(model.KUint16, 1), model.UInt(model.KUint32, 1<<32-1), model.UInt(model.KUint, 7)}
+	return engine.Family{Name: "custom-processing-cross", Arity: []int{len(cases), len(leaves)}, Body: func(x *engine.Exec) {
+		c := cases[x.Choose(len(cases))]
+		ev := leaves[x.Choose(len(leaves))]
+		var payload []model.Event
+		switch x.Choose(6) {
+		case 0:
+			payload = []model.Event{ev}
+		case 1:
+			payload = []model.Event{model.ArrStart(2, 0), ev, ev, model.ArrEnd()}
+		case 2:
+			payload = []model.Event{model.ObjStart(-1, 0), model.KeyRef("k"), ev, model.ObjEnd()}
+		case 3:
+			payload = []model.Event{model.ArrStart(-1, 0), model.ArrStart(1, 0), ev, model.ArrEnd(), model.ObjStart(0, 0), model.ObjEnd(), model.ArrEnd()}
+		case 4:
+			payload = []model.Event{model.ObjStart(2, 0), model.Key("k"), model.ObjStart(1, 0), model.KeyRef("k"), ev, model.ObjEnd(), model.Key("keep"), model.SInt(model.KInt8, 5), model.ObjEnd()}
+		default:
+			payload = []model.Event{model.ArrStart(0, 0), model.ArrEnd()}
+		}
+		shape := x.Choose(4)
+		var target reflect.Value
+		var evs []model.Event
+		var cell func() reflect.Value
+		switch shape {
+		case 0:
+			target, evs = reflect.New(c.t), payload
+			cell = func() reflect.Value { return target.Elem() }
+		case 1:
+			st := reflect.StructOf([]reflect.StructField{{Name: "Z", Type: reflect.TypeOf(0), Tag: `struct:"zzz"`}, {Name: "P", Type: c.t, Tag: `struct:"p"`}, {Name: "A", Type: reflect.TypeOf(""), Tag: `struct:"a"`}})
+			target = reflect.New(st)
+			evs = append(append([]model.Event{model.ObjStart(-1, 0), model.KeyRef("p")}, payload...), model.Key("a"), model.StrRef("after"), model.ObjEnd())
+			cell = func() reflect.Value {
+				if target.Elem().Field(2).String() != "after" {
+					return reflect.Value{}
+				}
+				return target.Elem().Field(1)
+			}
+		case 2:
+			target = reflect.New(reflect.SliceOf(c.t))
+			evs = append(append(append([]model.Event{model.ArrStart(2, 0)}, payload...), payload...), model.ArrEnd())
+			cell = func() reflect.Value {
+				if target.Elem().Len() != 2 {
+					return reflect.Value{}
+				}
+				return target.Elem().Index(1)
+			}
+		default:
+			target = reflect.New(reflect.MapOf(reflect.TypeOf(""), c.t))
+			evs = append(append([]model.Event{model.ObjStart(1, 0), model.KeyRef("k")}, payload...), model.ObjEnd())
+			cell = func() reflect.Value { return target.Elem().MapIndex(reflect.ValueOf("k")) }
+		}
+		desc := fmt.Sprintf("processing cell *%s <- shape %d %s", c.name, shape, model.EventsString(evs))
+		x.Case(desc, true)
+		x.Sample(func() interface{} {
+			return map[string]interface{}{"processing_cell": "*" + c.name, "events": model.EventsString(evs)}
+		})
+		sv, err := model.ValueOf(payload)
+		if err != nil {
+			engine.Fail("ill-formed generated stream: %v", err)
+		}
+		want := reflect.New(c.t.Field(0).Type).Elem()
+		specified, why := model.RefUnfold(sv, want)
+		if sv.K == model.VNull && (shape == 2 || shape == 3) {
+			specified, why = false, "a null element is stored by the container itself"
+		}
+		res := unfoldCustom(x, target.Interface(), evs, opts)
+		wit := map[string]interface{}{"processing_cell": "*" + c.name, "events": model.EventsString(evs), "err": errStr(res.Err), "specified": specified, "unspecified_because": why, "result": trunc(model.Dump(target.Elem().Interface()), 200)}
+		class := "custom:processing:" + c.name
+		if res.Bad() {
+			x.Violation("gotype.Unfolder(custom)", res.Symptom(), class, res.Panic+res.Where, wit)
+			return
+		}
+		if !specified {
+			x.Count("unspecified", 1)
+			return
+		}
+		if res.Err != nil {
+			x.Violation("gotype.Unfolder(custom)", "matching-target-refused", class, errStr(res.Err), wit)
+			return
+		}
+		x.Count("custom_compared", 1)
+		got := cell()
+		if !got.IsValid() || got.Field(1).Int() != 1 {
+			n := int64(-1)
+			if got.IsValid() {
+				n = got.Field(1).Int()
+			}
+			x.Violation("gotype.Unfolder(custom)", "wrong-value", class, fmt.Sprintf("the processing function was called %d times for one value (or the surrounding value is incomplete)", n), wit)
+			return
+		}
+		if ok, path := model.SameGo(want, got.Field(0)); !ok {
+			x.Violation("gotype.Unfolder(custom)", "wrong-value", class, "the cell handed to the processing function differs from the stream's value: "+path, wit)
+		}
+	}}
+}
+
 func c13CustomFamily(tier string) engine.Family {
 	nums := append(gen.IntEvents(), gen.FloatEvents()...)
 	scalars := append([]model.Event{model.Nil(), model.Bool(true), model.StrRef("s"), model.Str("")}, nums...)
